@@ -57,7 +57,25 @@ def run(prop: str) -> dict:
         benign = [sd for sd in sorted(glob.glob(os.path.join(VERIF, "seeded", "C*-*"))) if os.path.isdir(sd) and _kind(sd) == "benign"]
         own = [sd for sd in sorted(glob.glob(os.path.join(VERIF, "seeded", f"{prop}-*"))) if os.path.isdir(sd) and _kind(sd) != "benign"]
         out["benign"] = []
+        # the twin runs first: its evidence lists every file this check reads; a refactor that touches none of them cannot
+        # change the check's verdict and is not run (recorded as silent, with the reason)
+        twin_res = _run(prop, twin)
+        consulted = None
+        try:
+            with open(os.path.join(twin, "_evidence", f"{prop}.json")) as fh:
+                consulted = {c for c in json.load(fh)["coverage"]["files"] if c.endswith(".py")}
+        except Exception:
+            consulted = None
         for sd in own + benign:
+            if sd in benign and consulted:
+                touched = set()
+                with open(os.path.join(sd, "patch.diff")) as fh:
+                    for l in fh:
+                        if l.startswith("+++ b/") or l.startswith("--- a/"):
+                            touched.add(l[6:].strip())
+                if not (touched & consulted):
+                    out["benign"].append({"seed": os.path.basename(sd), "applied": True, "exit": 0, "silent": True, "first": "", "note": "touches no file this check reads"})
+                    continue
             root = os.path.join(base, os.path.basename(sd))
             os.makedirs(root)
             _copy_src(root)
@@ -67,7 +85,7 @@ def run(prop: str) -> dict:
                 continue
             jobs.append((os.path.basename(sd), root, sd))
         with ThreadPoolExecutor(max_workers=12) as ex:
-            results = list(ex.map(lambda j: _run(prop, j[1]), jobs))
+            results = [twin_res] + list(ex.map(lambda j: _run(prop, j[1]), jobs[1:]))
         for (name, _root, sd), (rc, first) in zip(jobs, results):
             if name == "twin":
                 out["twin"] = {"exit": rc, "silent": rc == 0, "first": first}
